@@ -984,11 +984,16 @@ def _average_profile(ctx, rule='R09.7') -> List[Ob]:
                 want_it = C.mk_call('range', (C.ONE, n_prof), ())
                 want_it = want_it if C.is_poly(want_it) else C.atom(want_it)
                 body = [b_ for b_ in st.body if not isinstance(b_, _ast.Pass)]
-                if it == want_it and len(body) == 1 and isinstance(body[0], _ast.Expr) and isinstance(body[0].value, _ast.Call) \
+                # every profile but the first: by index 1..len-1, or as the elements of profiles[1:]
+                by_index = it == want_it
+                rest = C.canon_expr(_ast.parse(f"{p}[1:]", mode='eval').body, env)
+                by_elem = it == rest
+                elem = C.atom(('sub', ('n', p), C.atom(('n', st.target.id)))) if by_index else C.atom(('n', st.target.id))
+                if (by_index or by_elem) and len(body) == 1 and isinstance(body[0], _ast.Expr) and isinstance(body[0].value, _ast.Call) \
                         and isinstance(body[0].value.func, _ast.Attribute) and body[0].value.func.attr == 'add' \
                         and isinstance(body[0].value.func.value, _ast.Name) and body[0].value.func.value.id == acc \
                         and len(body[0].value.args) == 1 \
-                        and C.canon_expr(body[0].value.args[0], env) == C.atom(('sub', ('n', p), C.atom(('n', st.target.id)))):
+                        and C.canon_expr(body[0].value.args[0], env) == elem:
                     steps['add-all-others'] = True
             except C.CanonError:
                 pass
